@@ -448,13 +448,13 @@ def replay(harness, inp):
         vertical = inp["vertical"]
         cls = lt.LTTextLineVertical if vertical else lt.LTTextLineHorizontal
         l1, l2 = cls(0.1), cls(0.1)
-        l1.set_bbox(tuple(fl(F(v)) for v in inp["l1"]))
-        l2.set_bbox(tuple(fl(F(v)) for v in inp["l2"]))
+        l1.set_bbox(tuple(F(v) for v in inp["l1"]))          # exact rationals: counterexamples often sit on a coincidence of two coordinates, which a float conversion can destroy
+        l2.set_bbox(tuple(F(v) for v in inp["l2"]))
         e1, e2 = [F(v) for v in inp["l1"]], [F(v) for v in inp["l2"]]
         ratio = F(str(inp["ratio"]))
         plane = u.Plane((0, 0, 50, 50))
         plane.extend([l1, l2])
-        got = any(o is l2 for o in l1.find_neighbors(plane, inp["ratio"]))
+        got = any(o is l2 for o in l1.find_neighbors(plane, ratio))
         if not vertical:
             d = ratio * (e1[3] - e1[1])
             close = e2[0] < e1[2] and e1[0] < e2[2] and e2[1] < e1[3] + d and e1[1] - d < e2[3]
